@@ -448,11 +448,12 @@ func (d *simDag) Get(ctx context.Context, c cid.Cid) (ipld.Node, error) {
 	}
 	if data, ok := p.blocks[bkey(c)]; ok {
 		w.mu.Unlock()
-		// a local read: a gate point for the driver too (a slow disk); a read under a context that is done fails
-		TheHub.at("sim.get", p, c, ctx)
+		// a local read: a read under a context that is done fails; a gate point for the driver too (a slow disk): a
+		// read that has begun completes, whatever happens to its context meanwhile
 		if err := ctx.Err(); err != nil {
 			return nil, err
 		}
+		TheHub.at("sim.get", p, c, ctx)
 		return decodeBlock(c, data)
 	}
 	w.mu.Unlock()
